@@ -7,7 +7,7 @@ import re
 
 import z3
 
-from .core import (Adt, Tup, Cell, Ref, Opaque, Lazy, SeqObj, IterObj, MapObj, StrVal, Closure, FnPtr, Transparent, Unsupported, NoModel,
+from .core import (Adt, Tup, Cell, Ref, Opaque, Lazy, SeqObj, IterObj, MapObj, StrVal, CharStr, Closure, FnPtr, Transparent, Unsupported, NoModel,
                    PanicExc, tset, tput, tappend, TRAIL, undo, wrap, zint, conc_int, conc_bool, is_z3)
 from .mir import ENUMS, STRUCTS, INT_RANGES, base_ty, generic_args, split_top, strip_turbofish
 
@@ -988,7 +988,7 @@ def install(ex):
     @model(r"^<.+ as ToString>::to_string$|^<str as ToOwned>::to_owned$|^<String as From<&str>>::from$|^<&str as Into<String>>::into$|^String::from$", "to_string/to_owned: identity on strings, opaque string otherwise")
     def to_string(ex, callee, args, rt):
         v = ex.deref(args[0])
-        if isinstance(v, StrVal):
+        if isinstance(v, (StrVal, CharStr)):
             yield v
         else:
             yield fresh_str(ex, "fmt")
@@ -1015,9 +1015,179 @@ def install(ex):
         e = str_eq(ex, args[0], args[1])
         yield e if re.search(r"::eq$", callee) else z3.Not(e)
 
+    @model(r"^(std::string::)?String::push$", "String::push(char): concatenation with the one-character string of that code point")
+    def string_push(ex, callee, args, rt):
+        r = args[0]
+        cur = ex.load(r)
+        while isinstance(cur, Ref):
+            r = cur
+            cur = ex.load(r)
+        c = args[1]
+        if isinstance(cur, CharStr):
+            ex.store(r, CharStr(cur.chars + (c,)))
+            yield UNIT
+            return
+        ch = z3.StrFromCode(c) if is_z3(c) else z3.StringVal(chr(c))
+        cc = conc_int(c)
+        if cc is not None:
+            ch = z3.StringVal(chr(cc))
+        ex.store(r, StrVal(z3.simplify(z3.Concat(cur.t, ch))))
+        yield UNIT
+
+    @model(r"^(std::string::)?String::push_str$", "String::push_str")
+    def string_push_str(ex, callee, args, rt):
+        r = args[0]
+        cur = ex.load(r)
+        while isinstance(cur, Ref):
+            r = cur
+            cur = ex.load(r)
+        ex.store(r, StrVal(z3.simplify(z3.Concat(cur.t, ex.deref(args[1]).t))))
+        yield UNIT
+
+    @model(r"^core::str::<impl str>::parse$|^str::parse$", "str::parse::<i32|u32>: Ok(value) iff optional sign + one or more ASCII digits + in range (u32: no minus sign), else Err")
+    def str_parse_int(ex, callee, args, rt):
+        sv = ex.deref(args[0])
+        tail = callee.rsplit("parse", 1)[1]
+        if isinstance(sv, CharStr):
+            yield from parse_charstr(ex, sv, tail)
+            return
+        if "f64" in tail or "f32" in tail:
+            yield from str_parse_f64(ex, callee, args, rt)
+            return
+        if "i32" not in tail and "u32" not in tail:
+            raise NoModel()
+        ty = "i32" if "i32" in tail else "u32"
+        lo, hi = INT_RANGES[ty]
+        t = sv.t
+        first = z3.SubString(t, 0, 1)
+        plus = first == z3.StringVal("+")
+        minus = first == z3.StringVal("-") if ty == "i32" else z3.BoolVal(False)
+        body = z3.If(z3.Or(plus, minus), z3.SubString(t, 1, z3.Length(t) - 1), t)
+        mag = z3.StrToInt(body)                      # -1 unless body is a non-empty string of decimal digits
+        val = z3.If(minus, -mag, mag)
+        ok = z3.And(mag >= 0, val >= lo, val <= hi)
+        for i in ex.branches([ok, z3.Not(ok)]):
+            if i == 0:
+                v = ex.fresh_int("parsed", ty)
+                ex.ctx.add(v == val)
+                yield Ok(v)
+            else:
+                yield Err(Opaque("ParseIntError", "parse error"))
+
+    @model(r"^core::str::<impl str>::parse_f64_never_matches$", "str::parse::<f64>: acceptance by Rust's float grammar (decimal digits with optional sign, point, exponent; inf/nan spellings not produced by the lexer), value uninterpreted")
+    def str_parse_f64(ex, callee, args, rt):
+        sv = ex.deref(args[0])
+        d = z3.Range("0", "9")
+        digits1 = z3.Plus(d)
+        sign = z3.Option(z3.Union(z3.Re("+"), z3.Re("-")))
+        mant = z3.Union(z3.Concat(digits1, z3.Option(z3.Concat(z3.Re("."), z3.Star(d)))), z3.Concat(z3.Re("."), digits1))
+        expo = z3.Option(z3.Concat(z3.Union(z3.Re("e"), z3.Re("E")), sign, digits1))
+        gram = z3.Concat(sign, mant, expo)
+        ok = z3.InRe(sv.t, gram)
+        for i in ex.branches([ok, z3.Not(ok)]):
+            if i == 0:
+                f = z3.Function("parse_f64", z3.StringSort(), z3.Float64())
+                yield Ok(f(sv.t))
+            else:
+                yield Err(Opaque("ParseFloatError", "parse error"))
+
+    def parse_charstr(ex, sv, tail):
+        cs = sv.chars
+        is_digit = lambda c: z3.And(c >= 48, c <= 57)
+        if "f64" in tail or "f32" in tail:
+            ok = float_grammar(cs)
+            for i in ex.branches([ok, z3.Not(ok)]):
+                if i == 0:
+                    yield Ok(z3.FP(ex.fresh_name("parsed_f64"), z3.Float64()))
+                else:
+                    yield Err(Opaque("ParseFloatError", "parse error"))
+            return
+        ty = "i32" if "i32" in tail else ("u32" if "u32" in tail else None)
+        if ty is None:
+            raise NoModel()
+        lo, hi = INT_RANGES[ty]
+        n = len(cs)
+        alts = []
+
+        def value(ds):
+            v = z3.IntVal(0)
+            for d in ds:
+                v = v * 10 + (d - 48)
+            return v
+        if n >= 1:
+            alts.append((z3.And(*[is_digit(c) for c in cs]), value(cs)))
+        if n >= 2:
+            alts.append((z3.And(cs[0] == 43, *[is_digit(c) for c in cs[1:]]), value(cs[1:])))
+            if ty == "i32":
+                alts.append((z3.And(cs[0] == 45, *[is_digit(c) for c in cs[1:]]), -value(cs[1:])))
+        conds = [z3.And(c, v >= lo, v <= hi) for c, v in alts]
+        bad = z3.Not(z3.Or(*conds)) if conds else z3.BoolVal(True)
+        for i in ex.branches(conds + [bad]):
+            if i < len(conds):
+                yield Ok(alts[i][1])
+            else:
+                yield Err(Opaque("ParseIntError", "parse error"))
+
+    def float_grammar(cs):
+        """z3 Bool: the character list is accepted by Rust's f64::from_str decimal grammar
+        [sign] (digits [. digits*] | . digits) [(e|E) [sign] digits]  -- decided by a small symbolic automaton"""
+        is_digit = lambda c: z3.And(c >= 48, c <= 57)
+        cur = [(0, z3.BoolVal(True), z3.BoolVal(False))]      # (state, condition, mantissa has a digit)
+        for c in cs:
+            nxt = {}
+
+            def add(st, cond, has):
+                if st in nxt:
+                    nxt[st] = (z3.Or(nxt[st][0], cond), z3.If(cond, has, nxt[st][1]))
+                else:
+                    nxt[st] = (cond, has)
+            for st, cond, has in cur:
+                d = is_digit(c)
+                sign = z3.Or(c == 43, c == 45)
+                if st == 0:
+                    add(1, z3.And(cond, sign), has)
+                    add(2, z3.And(cond, d), z3.BoolVal(True))
+                    add(3, z3.And(cond, c == 46), has)
+                elif st == 1:
+                    add(2, z3.And(cond, d), z3.BoolVal(True))
+                    add(3, z3.And(cond, c == 46), has)
+                elif st == 2:
+                    add(2, z3.And(cond, d), z3.BoolVal(True))
+                    add(4, z3.And(cond, c == 46), has)
+                    add(5, z3.And(cond, z3.Or(c == 101, c == 69)), has)
+                elif st == 3:
+                    add(4, z3.And(cond, d), z3.BoolVal(True))
+                elif st == 4:
+                    add(4, z3.And(cond, d), z3.BoolVal(True))
+                    add(5, z3.And(cond, has, z3.Or(c == 101, c == 69)), has)
+                elif st == 5:
+                    add(6, z3.And(cond, sign), has)
+                    add(7, z3.And(cond, d), has)
+                elif st == 6:
+                    add(7, z3.And(cond, d), has)
+                elif st == 7:
+                    add(7, z3.And(cond, d), has)
+            cur = [(st, c_, h_) for st, (c_, h_) in nxt.items()]
+        acc = [z3.And(cond, has) for st, cond, has in cur if st in (2, 4, 7)]
+        return z3.Or(*acc) if acc else z3.BoolVal(False)
+
+    @model(r"^<(std::option::)?Option<(char|i32|u32|usize|bool)> as PartialEq>::(eq|ne)$", "Option<scalar> equality")
+    def option_eq(ex, callee, args, rt):
+        a, b = ex.deref(args[0]), ex.deref(args[1])
+        neg = callee.endswith("ne")
+        for va in enum_branch(ex, a, ["Some", "None"]):
+            for vb in enum_branch(ex, b, ["Some", "None"]):
+                if va != vb:
+                    r = z3.BoolVal(False)
+                elif va == "None":
+                    r = z3.BoolVal(True)
+                else:
+                    r = variant_field(ex, a, "Some", 0) == variant_field(ex, b, "Some", 0)
+                yield z3.Not(r) if neg else r
+
     @model(r"^(std::string::)?String::new$", "String::new")
     def string_new(ex, callee, args, rt):
-        yield StrVal("")
+        yield CharStr(()) if getattr(ex, "string_mode", "") == "chars" else StrVal("")
 
     # ---------------------------------------------------------------- Vec / SmallVec / slices
     @model(r"^(std::vec::)?Vec::(<.*>::)?(new|with_capacity)$|^(smallvec::)?SmallVec::(<.*>::)?(new|with_capacity)$", "Vec::new / SmallVec::new")
